@@ -6,6 +6,7 @@ import (
 	"crypto/tls"
 	"errors"
 	"fmt"
+	"os"
 	"strings"
 	"testing"
 
@@ -30,6 +31,8 @@ type c03cfg struct {
 	// writeFault: every answer of the server is the positive one, but the connection breaks for writing at the
 	// client's k-th write (k a free choice): whatever the client was about to send, Connect must report an error
 	writeFault bool
+	// logger: the traffic log is on (reads and writes go through the stream logger, also across STARTTLS)
+	logger bool
 }
 
 // (step, answer) pairs that fail the earlier attempt of an afterFailed scenario
@@ -45,6 +48,9 @@ func (c c03cfg) name() string {
 	if c.writeFault {
 		n += "/write-fault"
 	}
+	if c.logger {
+		n += "/logger"
+	}
 	return n
 }
 
@@ -59,6 +65,9 @@ type c03out struct {
 	recs       *[]*negRec
 	last       int
 }
+
+// c03logger, when set, is the traffic log of the clients made by newTestClient
+var c03logger *os.File
 
 func newTestClient(insecure, resource, sm, smResume bool, onErr func(error), onEvent func(Event)) (*Client, *Config, error) {
 	jid := "user@example.org"
@@ -77,6 +86,7 @@ func newTestClient(insecure, resource, sm, smResume bool, onErr func(error), onE
 		StreamManagementEnable: sm,
 	}
 	cfg.streamManagementResume = smResume
+	cfg.StreamLogger = c03logger
 	cl, err := NewClient(cfg, NewRouter(), onErr)
 	if err != nil {
 		return nil, nil, err
@@ -166,6 +176,16 @@ func c03body(sc c03cfg) func() {
 			}
 		}
 		sm := sc.sm || sc.resumable
+		c03logger = nil
+		if sc.logger {
+			f, ferr := os.CreateTemp("", "verif-c03-*.log")
+			if ferr != nil {
+				vrt.Fail("C03|harness|tempfile", "%v", ferr)
+				return
+			}
+			defer func() { f.Close(); os.Remove(f.Name()); c03logger = nil }()
+			c03logger = f
+		}
 		cl, cfg, err := newTestClient(sc.insecure, sc.resource, sm, sc.resumable,
 			func(err error) { vrt.Log("errorhandler") },
 			func(e Event) {
@@ -375,7 +395,7 @@ func TestVerifC03(t *testing.T) {
 										continue
 									}
 								}
-								sc := c03cfg{insecure, resource, sm, resumable, starttls, session, smAdv, false, false}
+								sc := c03cfg{insecure: insecure, resource: resource, sm: sm, resumable: resumable, starttls: starttls, session: session, smAdv: smAdv}
 								scs = append(scs, hx.Scenario{Name: sc.name(), Opt: vrt.Options{Bound: thoroughBound(1)}, Body: c03body(sc), Verdict: c03verdict})
 							}
 						}
@@ -402,6 +422,12 @@ func TestVerifC03(t *testing.T) {
 					scs = append(scs, hx.Scenario{Name: sc.name(), Opt: vrt.Options{Bound: 0}, Body: c03body(sc), Verdict: c03verdict})
 				}
 			}
+		}
+	}
+	for _, insecure := range []bool{true, false} {
+		for _, starttls := range []string{"offered", "required"} {
+			sc := c03cfg{insecure: insecure, starttls: starttls, session: "absent", logger: true}
+			scs = append(scs, hx.Scenario{Name: sc.name(), Opt: vrt.Options{Bound: thoroughBound(1)}, Body: c03body(sc), Verdict: c03verdict})
 		}
 	}
 	for _, session := range []string{"absent", "mandatory"} {
